@@ -501,10 +501,17 @@ impl Store {
     }
 
     pub async fn cas_insert(&self, content: impl AsRef<[u8]>) -> cacache::Result<ssri::Integrity> {
+        // write_hash pre-allocates `content.len()` bytes, which fails for empty content
+        if content.as_ref().is_empty() {
+            return self.cas_writer().await?.commit().await;
+        }
         cacache::write_hash(&self.path.join("cacache"), content).await
     }
 
     pub fn cas_insert_sync(&self, content: impl AsRef<[u8]>) -> cacache::Result<ssri::Integrity> {
+        if content.as_ref().is_empty() {
+            return self.cas_writer_sync()?.commit();
+        }
         cacache::write_hash_sync(self.path.join("cacache"), content)
     }
 
